@@ -192,7 +192,9 @@ def search(ctx):
     fails, seen = [], set()
     for i in range(ctx.budget(16, 160)):
         sc = fagen.fa_scenario(ctx.rng, ctx.tier, jfa=bool(i % 2))
-        ctx.count("search:" + ("jfa" if sc["jfa"] else "isv"))
+        if i >= 3 and i % 4 == 3:
+            sc["layout"] = "dask"  # enrolment statistics whose arrays are (uncomputed) Dask arrays
+        ctx.count("search:" + ("jfa" if sc["jfa"] else "isv") + (":dask-backed-statistics" if sc.get("layout") == "dask" else ""))
         ctx.case(["s", core.tolist(sc["U"]), core.tolist([s["f"] for s in sc["sts"]])], nontrivial=True)
         f = oracle(sc, 4 if ctx.tier == "quick" else 8, converge=(ctx.tier == "thorough" or i < 3 or ctx.broken))
         if f and f["sig"] not in seen:
